@@ -41,6 +41,12 @@ class StubAtoms(PyStub):
         self.view = view if view is not None else {}
         self.natoms = natoms if natoms is not None else len(next(iter(self.view.values())))
 
+    @property
+    def pos(self):
+        if 'pos' not in self.view:
+            raise Opaque('atoms.pos of an Atoms without positions')
+        return self.view['pos']
+
 
 class StubBox(PyStub):
     def __init__(self, vects=None, origin=None):
@@ -53,6 +59,17 @@ class StubBox(PyStub):
     @property
     def origin(self):
         return self.origin_.copy()
+
+    @property
+    def reciprocal_vects(self):
+        import sympy as sp
+        return np.array(sp.Matrix(self.vects_.tolist()).inv().T.tolist(), dtype=object)
+
+    def position_cartesian_to_relative(self, pos):
+        return np.inner(np.asarray(pos, dtype=object) - self.origin_, self.reciprocal_vects)
+
+    def position_relative_to_cartesian(self, rel):
+        return np.asarray(rel, dtype=object).dot(self.vects_) + self.origin_
 
 
 class StubSystem(PyStub):
@@ -72,7 +89,7 @@ def supersize(ctx):
     n = 0
     for sizes in cases:
         n += 1
-        atoms = StubAtoms(view={'atype': arr([1, 2]), 'pos': symarray('x', (2, 3)), 'tag': tag.copy()})
+        atoms = StubAtoms(view={'atype': arr([1, 2]), 'pos': S.dot(V) + o, 'tag': tag.copy()})   # Cartesian positions consistent with the scaled ones
 
         def atoms_prop(key=None, value=None, scale=False, **k):
             if key is None:
